@@ -1,6 +1,8 @@
 package main
 
 import (
+	"time"
+	"context"
 	lisp "github.com/jig/lisp"
 	"fmt"
 	"github.com/jig/lisp/types"
@@ -157,6 +159,30 @@ func runC03(tier string, seed uint64, rep *Report) {
 		Call("try", Call("throw", Q(L(S("trace!"), 99))), Call("catch", S("e"), S("e")), Call("finally", Call("trace!", 1))), ev(L(S("trace!"), 99), 1), "tmpl")
 	expect(rep, "outer finally runs when the handler ends in another try",
 		Call("try", thr(1), Call("catch", S("e"), Call("try", Call("trace!", 1), Call("finally", Call("trace!", 2)))), Call("finally", Call("trace!", 3))), ev(1, 1, 2, 3), "tmpl")
+	// under a deadline the try body gets part of the remaining time so that handler and finally can still run:
+	// a body that uses up its share is caught, and finally runs exactly once, on the caught and on the uncaught path
+	for _, c := range []struct {
+		src       string
+		wantTrace []types.MalType
+		wantVal   types.MalType
+		wantErr   bool
+	}{
+		{"(try (sleep 100000) (catch e (do (trace! :handler) :caught)) (finally (trace! :finally)))", []types.MalType{Kw("handler"), Kw("finally")}, Kw("caught"), false},
+		{"(try (sleep 100000) (finally (trace! :finally)))", []types.MalType{Kw("finally")}, nil, true},
+		{"(try (try (sleep 100000) (finally (trace! :inner))) (catch e :c) (finally (trace! :outer)))", []types.MalType{Kw("inner"), Kw("outer")}, Kw("c"), false},
+	} {
+		w, _ := NewWorld()
+		ctx, cancel := context.WithTimeout(context.Background(), time.Second)
+		o := w.EvalText(ctx, c.src)
+		cancel()
+		idx := rep.Add("P n", "V n | l 0 ", c.src+"  under a 1s deadline", true, "deadline-template")
+		got := EncS(types.List{Val: w.TraceSnapshot()})
+		want := EncS(types.List{Val: c.wantTrace})
+		if got != want || (o.Err != nil) != c.wantErr || (!c.wantErr && EncS(o.Val) != EncS(c.wantVal)) {
+			rep.Violate(idx, fmt.Sprintf("try under a deadline: result %s, trace %s; expected %s with trace %s", d2o(o), Show(types.List{Val: w.TraceSnapshot()}),
+				map[bool]string{true: "an error", false: Show(c.wantVal)}[c.wantErr], Show(types.List{Val: c.wantTrace})), c.src+"  evaluated under context.WithTimeout(1s)")
+		}
+	}
 	n, depth := 1500, 3
 	if tier == "thorough" {
 		n, depth = 30000, 6
